@@ -952,7 +952,8 @@ int rewriteusername(struct request *rq, struct tlv *attr) {
     return 1;
 }
 
-void addttlattr(struct radmsg *msg, uint32_t *attrtype, uint8_t addttl) {
+/* returns 0 if the attribute could not be added (out of memory), else 1 */
+int addttlattr(struct radmsg *msg, uint32_t *attrtype, uint8_t addttl) {
     uint8_t ttl[4];
     struct tlv *attr;
 
@@ -961,13 +962,16 @@ void addttlattr(struct radmsg *msg, uint32_t *attrtype, uint8_t addttl) {
 
     if (attrtype[1] == 256) { /* not vendor */
         attr = maketlv(attrtype[0], 4, ttl);
-        if (attr && !radmsg_add(msg, attr, 0))
+        if (!attr)
+            return 0;
+        if (!radmsg_add(msg, attr, 0)) {
             freetlv(attr);
-    } else {
-        attr = maketlv(attrtype[1], 4, ttl);
-        if (attr)
-            addvendorattr(msg, attrtype[0], attr);
+            return 0;
+        }
+        return 1;
     }
+    attr = maketlv(attrtype[1], 4, ttl);
+    return attr && addvendorattr(msg, attrtype[0], attr);
 }
 
 int decttl(uint8_t l, uint8_t *v) {
@@ -1594,8 +1598,11 @@ int radsrv(struct request *rq) {
         !ensuremsgauthfront(msg))
         goto rmclrqexit;
 
-    if (ttlres == -1 && (options.addttl || to->conf->addttl))
-        addttlattr(msg, options.ttlattrtype, to->conf->addttl ? to->conf->addttl : options.addttl);
+    if (ttlres == -1 && (options.addttl || to->conf->addttl) &&
+        !addttlattr(msg, options.ttlattrtype, to->conf->addttl ? to->conf->addttl : options.addttl)) {
+        debug(DBG_WARN, "radsrv: failed to add TTL attribute, request dropped");
+        goto rmclrqexit;
+    }
 
     free(userascii);
     rq->to = to;
@@ -1806,8 +1813,11 @@ int replyh(struct server *server, uint8_t *buf, int len) {
         !ensuremsgauthfront(msg))
         goto errunlock;
 
-    if (ttlres == -1 && (options.addttl || from->conf->addttl))
-        addttlattr(msg, options.ttlattrtype, from->conf->addttl ? from->conf->addttl : options.addttl);
+    if (ttlres == -1 && (options.addttl || from->conf->addttl) &&
+        !addttlattr(msg, options.ttlattrtype, from->conf->addttl ? from->conf->addttl : options.addttl)) {
+        debug(DBG_WARN, "replyh: failed to add TTL attribute, reply dropped");
+        goto errunlock;
+    }
 
     debug(DBG_DBG, "replyh: passing %s (id %d) to client %s (%s)", radmsgtype2string(msg->code), msg->id, from->conf->name, addr2string(from->addr, tmp, sizeof(tmp)));
 
